@@ -118,6 +118,10 @@ def ast():
             errors[f["file"]] = f["error"]
         else:
             out[f["file"]] = f["items"]
+    import normalize
+
+    for items in out.values():
+        normalize.normalise_items(items)
     _ast = out
     _ast_meta.update({"files": len(out), "errors": errors, "wall_s": round(time.time() - t0, 2)})
     return out
